@@ -36,7 +36,7 @@ ASSUMPTIONS = [
     "iterating / passing on slot-data dicts and slot references is outside the domain (case skipped)",
 ]
 BOUNDS = {"quick": {"programs": 4800}, "thorough": {"programs": 200000}}
-CFG = {"naming": "pool", "pool": ["x", "y", "z"], "probes": True, "errors": False, "isfilled": False, "max_nodes": 4, "extra_probe": "u"}
+CFG = {"naming": "pool", "pool": ["x", "y", "z"], "probes": True, "errors": False, "isfilled": False, "max_nodes": 4, "extra_probe": "u", "assign": True}
 
 _PROBE_RE = re.compile(r"\[p(\d+):([^\]\[]*)\]")
 
